@@ -35,7 +35,8 @@ check("C19", "exploration",
 check("C13", "exploration",
       "runtime differential monitor: real find_merge_base/can_fast_forward/independent/find_octopus_base/Walker on exhaustively enumerated DAG x clock spaces against an ancestor-bitset oracle that is itself validated against git merge-base/rev-list on every run",
       "All DAGs on n<=4 nodes x all 75 weak orders of timestamps x all query pairs/triples/include sets/excludes/walker options "
-      "(thorough: n=5, all 1024 DAGs x 541 weak orders for pairs), random DAGs to 300 commits under 7 clock modes, and on-disk "
+      "(thorough: n=5, all 1024 DAGs x 541 weak orders for pairs), random DAGs to 300 commits under 7 clock modes, 4800 (thorough 64000) "
+      "ladder DAGs (chain + shortcut merges, 6-14 commits) under fully permuted/tied/reversed clocks with all pair queries, and on-disk "
       "copies made by git fast-import with no/git/dulwich commit-graph. Exhaustive only inside the stated bounds.",
       "ancestor-bitset oracle (validated against git 2.39.5 each run); excludes under skewed clocks only checked for duplicates/containment as the statement exempts them",
       "DESIGN.md §5 C13")
@@ -163,13 +164,15 @@ check("C05", "exploration",
       "DESIGN.md §5 C05")
 
 check("C04", "fault_enumeration",
-      "exhaustive byte/bit/truncation fault enumeration of small valid packs and installed files plus 41 grammar-aware hostile packs, each run against the real ingestion paths in crash-isolated workers under a kernel address-space limit, a CPU budget relative to the undamaged input and a zlib output monitor; post-state oracle compares the store seen by a fresh Repo and the pack directory against the pre-state and re-hashes every visible object with hashlib",
+      "exhaustive byte/bit/truncation fault enumeration of small valid packs and installed files plus 77 grammar-aware hostile packs, each run against the real ingestion paths in crash-isolated workers under a kernel address-space limit, a CPU budget relative to the undamaged input and a zlib output monitor; post-state oracle compares the store seen by a fresh Repo and the pack directory against the pre-state and re-hashes every visible object with hashlib",
       "5 seed packs (git full/OFS/REF/thin, dulwich deltified; 1-2 KB) x paths {add_thin_pack with hostile chunking, add_pack+commit, PackStreamReader, "
       "MemoryObjectStore.add_thin_pack, ReceivePackHandler, add_pack_data from a source pack with intact idx and damaged data}: every byte x "
       "{^01,^80,=00,=ff} (thorough: all 8 bit flips, every position and every truncation on every path), tails, splices; grammar attacks: count "
       "high/low/huge, wrong trailer, versions, OFS offset 0/beyond start/into an entry/forward, REF delta to self/missing/two-cycle, empty delta, "
       "zero/garbage/headerless commit-tree-tag payloads, size header too small/big/2^64, zlib trailing garbage, single- and multi-slice "
-      "decompression bombs, valid depth-40 chain; installed loose object/idx/index/packed-refs/commit-graph/multi-pack-index: every (2nd) byte "
+      "decompression bombs, valid depth-40 chain, 26 hostile delta payloads inside structurally valid OFS/REF packs (copy past the base, "
+      "4 GiB offsets, size-0 copies, truncated inserts, size mismatches, reserved opcode, over-long varints), malformed tree/commit/tag "
+      "payloads before and after well-formed objects; installed loose object/idx/index/packed-refs/commit-graph/multi-pack-index: every (2nd) byte "
       "x 2 patterns + truncations, reads through Repo. Rust and pure-Python decoders both driven.",
       "ordinary error = Exception subclass; leftover tmp files after a failed ingestion are counted, not judged; Pack.get_raw trusts its idx by design, only store[id] is judged for damaged indexes; the inflation bound is declared size + 64 KiB per zlib stream",
       "DESIGN.md §5 C04")
@@ -180,8 +183,9 @@ check("C14", "exploration",
       "(hash cache/lookup table on/off), packed-refs, idx v1/v2/v3} written by C git or dulwich x staleness {none, new loose commits, new pack, "
       "deleted refs, full repack / prune with the old files put back, files of another repository or pack}; every accelerator alone x writer x "
       "staleness; ref-write sequences on packed vs loose refs (values from a small pool so earlier values recur); long-lived handles that see "
-      "an external repack/gc/new pack between warm-up and lookups.",
-      "get_peeled None is 'no cached information' by contract and not compared against a value; C git cannot read idx v3, so the idx is rewritten after the history was continued; on this tree the bitmap probe shows 0 bitmap-produced answers (find_commit_bitmaps looks hex ids up in a table keyed by binary ids, so BitmapReachability always falls back) - bitmap transparency therefore holds trivially and the check would see it if that changed",
+      "an external repack/gc/new pack between warm-up and lookups; query scripts (MissingObjectFinder, get_reachable_commits with/without "
+      "exclude, get_reachable_objects; 1-3 heads, 0-3 excludes, order-sensitive) on a handle holding freshly generated bitmaps vs a bitmap-free copy.",
+      "get_peeled None is 'no cached information' by contract and not compared against a value; C git cannot read idx v3, so the idx is rewritten after the history was continued; bitmaps read back from disk are never consulted on this tree (probe: 0 bitmap-produced answers; find_commit_bitmaps looks hex ids up in a table keyed by binary ids), so bitmap transparency is decided on the handle that generated them (live-bitmap scenario: scripted query sequences with/without in-memory bitmaps, ~600 bitmap-produced answers per quick run)",
       "DESIGN.md §5 C14")
 
 check("C17", "exploration",
@@ -190,7 +194,9 @@ check("C17", "exploration",
       "variants, embedded '/', backslashes, absolute paths, drive prefixes; symlinks to absolute/parent/sibling/.git targets; set-id/sticky/"
       "world-writable/odd modes; gitlinks; pooled names that change type between steps) x drivers {WorkTree.reset_index, reset --hard, "
       "reset --mixed then --hard, checkout, switch, update_working_tree, clone then checkouts, stash pop of a crafted stash, apply_patch of "
-      "crafted create/modify/delete/rename/copy/mode/symlink diffs} x core.protectNTFS/protectHFS/symlinks unset/true/false.",
+      "crafted create/modify/delete/rename/copy/mode/symlink diffs} x core.protectNTFS/protectHFS/symlinks unset/true/false; directed "
+      "sequences (directory then symlink of the same name and the reverse, refused half-way, symlink then gitlink, file/dir/link) with "
+      "link targets outside the work tree or inside .git, and a final step back to a benign base commit.",
       "a .git write is legitimate only when the innermost dulwich frame is a git-internal writer (file/refs/object_store/pack/reflog/config/repo); set-id/sticky bits on created files are counted, not judged; hostile absolute paths point into the sandbox and the monitor blocks anything that would land beyond it",
       "DESIGN.md §5 C17")
 
@@ -201,7 +207,9 @@ check("C18", "exploration",
       "to directories, self-referential, absolute), and two related trees each (content, exec-bit only, type change with identical bytes, "
       "add/delete, file<->directory); checkout by clone / reset --hard / checkout; restage into the existing or an emptied index; 2-8 random "
       "edits {modify same/different size, chmod, delete, untracked file/dir, file<->symlink, file<->dir, add, WorkTree.stage, unstage, "
-      "rm --cached, commit, switch} with a status comparison after each; up to 4 ordered pairs of clean branch switches per case.",
+      "rm --cached, commit, switch, untracked directory whose name is a byte prefix of a tracked sibling} with a status comparison after "
+      "each in untracked-files=all and =normal; reset --hard from the edited state must restore every tracked path; up to 4 ordered pairs "
+      "of clean branch switches per case.",
       "core.autocrlf=false, no .gitignore/.gitattributes, untracked-files=all; index operations that refuse (unstage of a file<->directory change) are counted and the state they leave is still compared; the harness waits 12 ms after index writes so edits are not racily clean by accident (dulwich has no racy-clean protection; not driven here)",
       "DESIGN.md §5 C18")
 
